@@ -553,7 +553,14 @@ pub fn run(args: &Args) -> Report {
     const TOK: [&str; 14] = ["a", "b", "", "0", "a/b", "m~n", "~", "/", "~1", "~0", "é", "x y", "deny", "de/ny"];
     let nd = args.budget(40_000, 800_000);
     let mut depth_seen = std::collections::BTreeSet::new();
+    let mut seg_mismatches = 0u64;
     for case in 0..nd {
+        if seg_mismatches > 300 {
+            // a defect that poisons later requests (e.g. state kept per thread) makes every further case fail, possibly ever more
+            // slowly: the witnesses recorded so far say everything there is to say
+            rep.set("struct_segment_cases_skipped_after_300_mismatches", json!(nd - case));
+            break;
+        }
         let mut r = rng.fork(0x40_0000 + case);
         let depth = if case < 41 { case as usize } else { r.usize_below(41) };
         let escape_free = r.coin();
@@ -608,6 +615,7 @@ pub fn run(args: &Args) -> Report {
             }
             let seen = rec.lock().unwrap().clone();
             if seen.len() != 1 || seen[0].0 != expect || seen[0].1 != with_body {
+                seg_mismatches += 1;
                 let class = if depth > 16 { "deep" } else if escape_free { "plain" } else { "escaped" };
                 rep.violation(format!("C07:struct-segments:{class}"), format!("struct at {root:?}, path {path:?} ({which}): handler saw {seen:?}, RFC 6901 tokens are {expect:?} (body={with_body})"), json!({"root": root, "path": path}));
             }
